@@ -21,9 +21,9 @@ def run(ctx):
     ctx.assume(*_pipe.ASSUME)
     ctx.not_claimed(_pipe.OUTSIDE)
     C = []
-    ks = [34, 37, 12] if q else [34, 37, 12, 3, 25, 15, 0, 5, 28]
+    ks = [34, 37, 12] if q else [34, 37, 12, 3, 25]
     if not q:
-        C += PC.text_holes(ctx, own, ks, clauses='c13', timeout=600 if q else 2400)
+        C += PC.text_holes(ctx, own, ks, clauses='c13', timeout=600 if q else 1200)
     C += PC.spell_holes(ctx, own, [0, 10] if q else range(len(P.SPELL)), clauses='c13', alpha='lOIaifn_')
     C += PC.label_holes(ctx, own, [P.skel('if x:\n# c'), P.skel('if x:\r'), P.skel('def f():\n    x = 1; global'), P.skel('f(a, k=1')] if q else range(len(P.SKELS)), vis=(4,) if q else (0, 4, 8))
     xh.run_conditions(ctx, C)
